@@ -189,6 +189,7 @@ class Eval(RestrictionCapableEval):
 
     def eval(self, md):
         gattr = getattr(md, 'guarded_getattr', None)
+        gitem = None
         if gattr is not None:
             gitem = getattr(md, 'guarded_getitem', None)
             self.prepRestrictedCode()
@@ -202,6 +203,12 @@ class Eval(RestrictionCapableEval):
             code = self.ucode
             d = {'_': md, '_vars': md}
         d.update(self.globals)
+        if gattr is not None:
+            # guards supplied by the template class take precedence over
+            # the default guards in self.globals
+            d['_getattr_'] = gattr
+            if gitem is not None:
+                d['_getitem_'] = gitem
         for name in self.used:
             __traceback_info__ = name
             try:
